@@ -641,7 +641,8 @@ func genC01Case(rng *hx.Rng, allowDQ bool) *c01Gen {
 		g.failpat = []string{"0111", "011", "1110"}[rng.Intn(3)]
 		g.retry = rng.Range(0, 1)
 	}
-	// chain: up to 3 actions, at most one join (chains with two joins are the known nested case: separate stream)
+	// chain: up to 3 actions, one or two joins (two joins were the nested-Propagate finding, repaired by
+	// `fix: processor.Propagate`)
 	nact := rng.Range(0, 3)
 	var chain []string
 	joinAt := -1
@@ -656,8 +657,21 @@ func genC01Case(rng *hx.Rng, allowDQ bool) *c01Gen {
 			splitAt = -1
 		}
 	}
+	join2At := -1
+	if joinAt >= 0 && nact >= 2 && rng.Chance(1, 3) {
+		join2At = rng.Intn(nact)
+		if join2At == joinAt || join2At == splitAt {
+			join2At = -1
+		}
+	}
+	lastJoin := joinAt
+	if join2At > lastJoin {
+		lastJoin = join2At
+	}
 	for i := 0; i < nact; i++ {
 		switch i {
+		case join2At:
+			chain = append(chain, "j1")
 		case joinAt:
 			chain = append(chain, "j0")
 		case splitAt:
@@ -685,7 +699,7 @@ func genC01Case(rng *hx.Rng, allowDQ bool) *c01Gen {
 			switch {
 			case rng.Chance(1, 8):
 				v[k] = 'D'
-			case rng.Chance(1, 16) && k > joinAt:
+			case rng.Chance(1, 16) && k > lastJoin:
 				// ActionBreak skips the rest of the chain: only generated downstream of the holding
 				// action (the only shipped plugin that breaks, split, first flushes every busy action
 				// through Spawn; a break upstream of a busy holder would let the event overtake it)
@@ -705,11 +719,22 @@ func genC01Case(rng *hx.Rng, allowDQ bool) *c01Gen {
 				m = "x" + strconv.Itoa(i)
 			}
 		}
+		m1 := ""
+		if join2At >= 0 {
+			switch rng.Intn(5) {
+			case 0:
+				m1 = "S" + strconv.Itoa(i)
+			case 1, 2:
+				m1 = "C" + strconv.Itoa(i)
+			case 3:
+				m1 = "x" + strconv.Itoa(i)
+			}
+		}
 		kids := 0
 		if splitAt >= 0 && rng.Chance(1, 3) {
 			kids = rng.Range(1, 3)
 		}
-		spec := c01SpecKids(stream, string(v), []string{m}, kids)
+		spec := c01SpecKids(stream, string(v), []string{m, m1}, kids)
 		// three quarters of the events satisfy a given condition
 		var ks strings.Builder
 		for p, c := range cond {
